@@ -126,6 +126,13 @@ def admissible(case, c):
     csz = Fr(case["csz"])
     scale = max(abs(case["xll"]), abs(case["yll"]), abs(float(x)), abs(float(y))) / case["csz"]
     eps = Fr(EDGE + 8e-16 * scale)
+    # exact geometry (everything a small multiple of 2^-10, coarse cell size a power of two):
+    # the kernel's subtraction, division and floor are exact, so a centre lying exactly on an
+    # edge is decided by the closed-open footprint and no bracket is needed
+    vals = [case["xll"], case["yll"], case["csz"], float(x), float(y)]
+    if all(abs(v) < 2 ** 20 and (v * 1024).is_integer() for v in vals) and \
+            math.frexp(case["csz"])[0] == 0.5:
+        eps = Fr(0)
     out = set()
     q = [(x - Fr(case["xll"])) / csz, (y - Fr(case["yll"])) / csz]
     opts = []
